@@ -77,8 +77,9 @@ def _apply(env, op, rel):
     return True
 
 
-def _compare(ctx, env, long_enf, kind, end, step, hist, creds):
-    fresh = env.enforcer(defaults=_defaults(kind), policy_dirs=['d1', 'd2'],
+def _compare(ctx, env, long_enf, kind, end, step, hist, creds,
+             dirs=('d1', 'd2')):
+    fresh = env.enforcer(defaults=_defaults(kind), policy_dirs=list(dirs),
                          enforce_new_defaults=end)
     for name in NAMES:
         a = common.decision(ctx, long_enf, name, creds)
@@ -99,20 +100,26 @@ def _roles():
     return r
 
 
-def run_history(ctx, k, first, start_main, kind, files):
+def run_history(ctx, k, first, start_main, kind, files, nodirs=False,
+                observe='each'):
     common.set_ctx(ctx)
-    menu = [(op, f) for f in files for op in FILE_OPS] + [('load', None),
-                                                          ('enforce', None)]
+    # 'force-load' is the service's reload hook: load_rules(force_reload=True)
+    menu = [(op, f) for f in files for op in FILE_OPS] + [
+        ('load', None), ('enforce', None), ('force-load', None)]
+    # nodirs: the configured policy directories do not exist at all (the
+    # stock configuration of a deployment that only has a policy file)
+    dirs = ['nodir1', 'nodir2'] if nodirs else ['d1', 'd2']
     end = bool(ctx.bool('enforce_new_defaults')) if kind == 'deprecated' \
         else True
     env = common.PolicyEnv()
     try:
-        env.mkdir('d1')
-        env.mkdir('d2')
+        if not nodirs:
+            env.mkdir('d1')
+            env.mkdir('d2')
+            env.write('d1/b.yaml', {'q': 'role:d1_b_1'})
         if start_main:
             env.write('policy.yaml', _content('policy.yaml', 1))
-        env.write('d1/b.yaml', {'q': 'role:d1_b_1'})
-        enf = env.enforcer(defaults=_defaults(kind), policy_dirs=['d1', 'd2'],
+        enf = env.enforcer(defaults=_defaults(kind), policy_dirs=dirs,
                            enforce_new_defaults=end)
         creds = {'roles': ctx.roles('creds', _roles())}
         enf.load_rules()
@@ -123,12 +130,17 @@ def run_history(ctx, k, first, start_main, kind, files):
             hist.append([op, rel])
             if op == 'load':
                 enf.load_rules()
+            elif op == 'force-load':
+                enf.load_rules(force_reload=True)
             elif op == 'enforce':
                 pass
             elif not _apply(env, op, rel):
                 ctx.assume(False)
             ctx.cover('op:' + op)
-            _compare(ctx, env, enf, kind, end, i, hist, creds)
+            # observe='last': the enforcer is not asked anything between the
+            # steps (asking is itself a load), only after the last one
+            if observe == 'each' or i == k - 1:
+                _compare(ctx, env, enf, kind, end, i, hist, creds, dirs)
         ctx.observe('history', hist)
     finally:
         env.close()
@@ -138,7 +150,14 @@ def cubes_history(tier, seed):
     out = []
     if tier == 'quick':
         files = FILES[:3]
-        n = len(files) * len(FILE_OPS) + 2
+        n = len(files) * len(FILE_OPS) + 3
+        # only a main file, the configured directories do not exist
+        for first in range(len(FILE_OPS) + 3):
+            for kind in ('plain', 'deprecated'):
+                for obs in ('each', 'last'):
+                    out.append({'k': 3, 'first': first, 'start_main': True,
+                                'kind': kind, 'files': FILES[:1],
+                                'nodirs': True, 'observe': obs})
         for first in range(n):
             for start_main in (True, False):
                 out.append({'k': 3 if start_main else 2, 'first': first,
@@ -146,12 +165,22 @@ def cubes_history(tier, seed):
                             'files': files})
             out.append({'k': 2, 'first': first, 'start_main': True,
                         'kind': 'deprecated', 'files': files})
-            if first < len(files[1:]) * len(FILE_OPS) + 2:
+            if first < len(files[1:]) * len(FILE_OPS) + 3:
                 out.append({'k': 2, 'first': first, 'start_main': False,
                             'kind': 'deprecated', 'files': files[1:]})
     else:
         files = FILES
-        n = len(files) * len(FILE_OPS) + 2
+        n = len(files) * len(FILE_OPS) + 3
+        for first in range(len(FILE_OPS) + 3):
+            for kind in ('plain', 'deprecated'):
+                for obs in ('each', 'last'):
+                    out.append({'k': 4, 'first': first, 'start_main': True,
+                                'kind': kind, 'files': FILES[:1],
+                                'nodirs': True, 'observe': obs})
+        for first in range(n):
+            out.append({'k': 3, 'first': first, 'start_main': True,
+                        'kind': 'deprecated', 'files': files,
+                        'observe': 'last'})
         for first in range(n):
             for start_main in (True, False):
                 for kind in ('plain', 'deprecated'):
@@ -209,6 +238,7 @@ HARNESSES = {
     'long': {'fn': run_long, 'cubes': cubes_long},
 }
 REQUIRED_COVER = ['op:' + o for o in FILE_OPS] + ['op:load', 'op:enforce',
+                                                    'op:force-load',
                                                     'long:done']
 
 
